@@ -114,6 +114,7 @@ class ModuleInfo:
     functions: dict[str, FuncInfo] = field(default_factory=dict)  # top-level + methods by qualname
     imports: dict[str, str] = field(default_factory=dict)  # local name -> dotted target
     assigns: dict[str, ast.expr] = field(default_factory=dict)  # module-level NAME = expr
+    star_imports: list[str] = field(default_factory=list)  # modules imported with `from m import *`
 
 
 def dotted(node: ast.AST) -> str:
@@ -178,6 +179,9 @@ class Index:
                     parts = parts[: len(parts) - (st.level - 1)]
                     base = ".".join(parts + ([st.module] if st.module else []))
                 for a in st.names:
+                    if a.name == "*":
+                        mi.star_imports.append(base)
+                        continue
                     mi.imports.setdefault(a.asname or a.name, f"{base}.{a.name}")
         for st in mi.tree.body:
             if isinstance(st, ast.Assign) and len(st.targets) == 1 and isinstance(st.targets[0], ast.Name):
@@ -277,6 +281,11 @@ class Index:
         elif head in mi.assigns:
             cur = ("assign", mi, head, mi.assigns[head])
         if cur is None:
+            for sm in mi.star_imports:
+                cur = self._resolve_abs(f"{sm}.{head}", _depth + 1)
+                if cur is not None:
+                    break
+        if cur is None:
             return None
         for p in rest:
             cur = self._member(cur, p, _depth + 1)
@@ -313,6 +322,10 @@ class Index:
                 return sub
             if p in cur.assigns:
                 return ("assign", cur, p, cur.assigns[p])
+            for sm in cur.star_imports:
+                r = self._resolve_abs(f"{sm}.{p}", _depth + 1)
+                if r is not None:
+                    return r
             return None
         if isinstance(cur, ClassInfo):
             q = cur.qualname + "." + p
